@@ -147,6 +147,27 @@ CHECKS = {
     design_ref="DESIGN.md section 5, C19",
     note="Trusted: the C-text scanner for file-scope variables and their writers; the stress run is testing. No axioms.",
     technique="Coq proof (interleaving independence by induction over schedules) over generated ownership facts + thread stress run (testing)"),
+ "C09": dict(
+    category="proof",
+    text="Theorems (Coq, all trees): the pre-order walk of _get_children is the node followed by the walks of exactly the Wikicodes "
+         "__children__ yields; every Wikicode that contributes text to a node is yielded (emptying all others leaves the rendering "
+         "unchanged); walks concatenate. The model of __children__ / __str__ per class is tied to /repo by comparing the model's walk "
+         "(kinds and text lengths, computed from the REAL token stream) with filter() on parsed trees. Identity-based clauses (each "
+         "node once, typed filters, non-recursive filter, contains, index(recursive), get_ancestors, get_parent, get_tree) are "
+         "checked by the oracle against an independent attribute walk for every node of every generated tree.",
+    design_ref="DESIGN.md section 5, C09",
+    note="Trusted: Coq kernel; extraction + driver; the hand-written per-class children/str model (tied by correspondence). No axioms.",
+    technique="Coq proof over the node-tree model (children cover rendering; walk = node :: children walks) + correspondence + navigation oracle"),
+ "C15": dict(
+    category="proof",
+    text="Theorems (Coq, every well-formed tree, any visibility table, any entity normaliser): with normalize off and template "
+         "parameters not kept, strip_code returns a subsequence of the source text, with and without collapse (collapse itself only "
+         "removes characters); every named entity of the generated table normalises to one character; numeric boundaries. The model "
+         "(Wikicode.strip_code + each node's __strip__) is total by construction and tied to /repo by comparing strip_code for all 8 "
+         "option combinations on real token streams. The normalize=True clause and totality on the implementation are checked by the oracle.",
+    design_ref="DESIGN.md section 5, C15",
+    note="Trusted: as C09; int() of entity values modelled for ASCII digits; is_visible with ASCII lower-casing. No axioms.",
+    technique="Coq proof (subsequence by induction on token-stream length of the tree) + correspondence on all option combinations + oracle"),
 }
 
 NOT_YET = {}
